@@ -6,7 +6,7 @@
     from_flat, update_metadata, copy_metadata), core/utils.py (updated).
     Oracles (arguments, never axioms): the scattering theory [raw] (Fortran / numpy solvers), the
     square root inside to_vector ([nrm]), cos/sin of k*z_c inside the per-scatterer phase. *)
-From Coq Require Import ZArith List Bool String.
+From Coq Require Import ZArith QArith List Bool String.
 From HV Require Import Common.Generic.
 Import ListNotations.
 
@@ -157,6 +157,17 @@ Definition superpose (fields : list (list cvec3)) : list cvec3 :=
                                map (fun ab : cvec3 * cvec3 => cv_add (fst ab) (snd ab)) (combine acc f)) rest f0
   end.
 
+(** a Scatterers collection the theory cannot handle as a whole: one component = its own theory answer,
+    its own centre and its own phase (cos, sin of k*z_c); the fields are added *)
+Definition comp : Type := ((list vec3 -> list cvec3) * vec3 * (T * T))%type.
+Definition field_flat_sup (k : T) (comps : list comp) (pts : list vec3) : list cvec3 :=
+  superpose (map (fun cm : comp => let '(raw, c, (ckz, skz)) := cm in field_flat raw k c ckz skz pts) comps).
+(** a component whose theory is pointwise (the field at a point depends on that point only) *)
+Definition ptcomp : Type := ((vec3 -> cvec3) * vec3 * (T * T))%type.
+Definition lift_comp (cm : ptcomp) : comp := let '(rawpt, c, ph) := cm in (map rawpt, c, ph).
+Definition ptfield (k : T) (cm : ptcomp) (q : vec3) : cvec3 :=
+  let '(rawpt, c, (ckz, skz)) := cm in cv_mul (phase ckz skz) (rawpt (position k c q)).
+
 (** the three public results on a flattened detector (point detectors, subsets) ... *)
 Definition holo_flat (alpha : T) (p : vec3) (nrm : T) (fl : list cvec3) : list T :=
   map (fun E => holo_px alpha E (to_vector p nrm)) fl.
@@ -173,6 +184,24 @@ Definition calc_inten_img (raw : list vec3 -> list cvec3) (k : T) (c : vec3) (ck
            (xs ys zs : list T) : list (list (list T)) :=
   unflatten (List.length xs) (List.length ys) (List.length zs)
             (inten_flat (field_flat raw k c ckz skz (flat_coords xs ys zs))).
+(** the same for a superposed collection *)
+Definition calc_field_img_sup (k : T) (comps : list comp) (xs ys zs : list T) : list (list (list cvec3)) :=
+  unflatten (List.length xs) (List.length ys) (List.length zs) (field_flat_sup k comps (flat_coords xs ys zs)).
+Definition calc_holo_img_sup (k : T) (comps : list comp) (alpha : T) (p : vec3) (nrm : T)
+           (xs ys zs : list T) : list (list (list T)) :=
+  unflatten (List.length xs) (List.length ys) (List.length zs)
+            (holo_flat alpha p nrm (field_flat_sup k comps (flat_coords xs ys zs))).
+Definition calc_inten_img_sup (k : T) (comps : list comp) (xs ys zs : list T) : list (list (list T)) :=
+  unflatten (List.length xs) (List.length ys) (List.length zs)
+            (inten_flat (field_flat_sup k comps (flat_coords xs ys zs))).
 End Gen.
 
 Arguments cplx T : clear implicits. Arguments vec3 T : clear implicits. Arguments cvec3 T : clear implicits.
+Arguments comp T : clear implicits. Arguments ptcomp T : clear implicits.
+
+(** * second executable instance: the same rational field with every result reduced to lowest terms.
+    On [QO] every addition multiplies the denominators (the mock-pipeline model reaches 2^17000); [QOr]
+    keeps dyadic denominators minimal.  Both are linked to [RO] (Lemmas.v section 6; Props [*_agrees_on_Q]). *)
+Definition QOr : Ops Q :=
+  mkOps Q 0%Q 1%Q (fun a b => Qred (a + b)) (fun a b => Qred (a * b)) (fun a b => Qred (a - b)) Qopp
+        (fun a => Qred (/ a)) Qltb Qle_bool Qeq_bool (fun z => inject_Z z).
